@@ -156,10 +156,10 @@ chk("C06",
     "spec/abi/Naming.tla defines the exported symbol of every method and destructor under abi_rename patterns (none, fixed, "
     "prefix{0}, {0}suffix) placed on module, type, impl block and method with inheritance module->type (destructor) and "
     "module->impl->method, innermost pattern applied once, plus which items each backend has enabled under a backend-specific "
-    "disable/rename; TLC checks injectivity, AppliedOnce, InnermostWins over all 1440 programs and refutes the negative model "
+    "disable/rename; TLC checks injectivity, AppliedOnce, InnermostWins over all 4800 programs (disable on the first method, the last method, an impl block or the type; a later impl block) and refutes the negative model "
     "(composition of patterns). Each program is compiled with the real proc macro and compared three ways: symbols predicted by the "
     "spec = `nm` of the staticlib = symbols referenced by the generated code of each of the 7 backends.",
-    "quick: seeded 70 of the 1440 programs in one crate; thorough: all. Type-level abi_rename reaches only the destructor "
+    "quick: seeded 70 of the 4800 programs in one crate; thorough: all. Type-level abi_rename reaches only the destructor "
     "(book silent; macro and tool agree). References are parsed from generated text.",
     "TLA+ spec + TLC; spec->impl replay comparing spec, compiled macro output (nm) and every backend's output",
     "DESIGN.md §5 C06")
